@@ -251,6 +251,11 @@ def replay_isolation_rule(ctx, rid):
         raise AnalysisError('_run: per-repetition _core_iterator call vanished')
     for c, l in in_loop:
         v = kwarg(c, 'sim_state')
+        if isinstance(v, ast.Name):
+            # a named local defined once inside the loop stands for the expression it was given
+            defs_ = [a.value for a in ast.walk(l) if isinstance(a, ast.Assign) and len(a.targets) == 1 and isinstance(a.targets[0], ast.Name) and a.targets[0].id == v.id]
+            if len(defs_) == 1:
+                v = defs_[0]
         ok = False
         msg = 'sim_state argument missing'
         if v is not None:
